@@ -690,7 +690,8 @@ class Merge(MultiCrossBlock):
         else:
             alignment = normalize_alignment(who, alignment)
         for b in blocks:
-            if b.alignment != alignment:
+            # a single-crossing block's own (default) alignment says nothing, as for `Nest`
+            if b.alignment != alignment and not (b.alignment == AlignmentMode.EQUAL_PREAMBLE and len(b.crossings) <= 1):
                 raise ValueError(who, "Blocks have different alignments.")
         mode = normalize_mode(who, mode)
 
